@@ -85,8 +85,14 @@ def gen_plan(seed: int, tier: str) -> dict:
             op = {"op": "find", "id": dev, "timeout": r.choice([0.25, 0.5, 0.5, 1.0, 2.0, 5.0]), "spell": r.choice(["lower", "lower", "upper", "mixed"])}
             if r.random() < 0.15:
                 op["cancel_after"] = r.choice([0.0, 0.1, 0.5, 0.6])
-        elif x < 0.92:
+        elif x < 0.84:
             op = {"op": "advert", "adv": gen_advert(r, r.choice(nets), dev)}
+        elif x < 0.88 and "ble" in nets:
+            op = {"op": "bump", "id": dev, "delta": r.choice([1, 1, 2, 10])}
+        elif x < 0.92:
+            earlier = [o["adv"] for o in ops if o["op"] == "advert" and o["adv"].get("net") == "ble" and o["adv"].get("valid") is True]
+            # the very same advertisement again (same bytes): e.g. after a power cycle restarted the state number
+            op = {"op": "advert", "adv": dict(r.choice(earlier))} if earlier else {"op": "advert", "adv": gen_advert(r, r.choice(nets), dev)}
         else:
             op = {"op": "goodbye", "net": r.choice(nets), "name": "Dev" + dev[-2:]}
         op["t"] = t
@@ -191,6 +197,8 @@ def execute(plan: dict, ch: Chooser) -> dict:
     mode = plan["mode"]
     waiters: list[dict] = []
     adverts: list[dict] = []
+    bumps: list[dict] = []  # in-place state number updates by a (simulated) connected session
+    last_ble_t: dict = {}
     escaped: list = []
     nets = {"ip": ["ip"], "coap": ["coap"], "ble": ["ble"], "agg": ["ip", "coap", "ble"]}[mode]
 
@@ -233,6 +241,8 @@ def execute(plan: dict, ch: Chooser) -> dict:
 
         def deliver(adv: dict):
             rec = {"t": loop.time(), "adv": adv, "raised": None}
+            if adv.get("net") == "ble":
+                last_ble_t[adv.get("id")] = len(adverts) + len(bumps)
             adverts.append(rec)
             ctx.event("advert", adv["net"], adv["id"], adv["valid"], adv.get("bad"))
             try:
@@ -282,6 +292,15 @@ def execute(plan: dict, ch: Chooser) -> dict:
                 start_find(op)
             elif op["op"] == "advert":
                 deliver(op["adv"])
+            elif op["op"] == "bump":
+                # what a connected session does after a write: the pairing advances the state number of its description in place
+                pr = ctls["ble"].pairings.get(op["id"]) if "ble" in ctls else None
+                if pr is not None and pr.description is not None:
+                    newv = ((pr.description.state_num + op["delta"]) & 0xFFFF) or 1
+                    pr._update_state_num(newv)
+                    bumps.append({"t": len(adverts) + len(bumps), "id": op["id"], "value": newv})  # t = order of processing, not time
+                    ctx.probe("state_number_bumped_in_place")
+                    ctx.event("bump", op["id"], newv)
             else:
                 if op["net"] == "ble":
                     return
@@ -415,6 +434,9 @@ def execute(plan: dict, ch: Chooser) -> dict:
                 d = dsc.description
                 if n == "ble":
                     want = {"id": dev, "config_num": adv["cn"], "state_num": adv["gsn"], "status_flags": adv["sf"], "category": adv["ci"]}
+                    later = [b for b in bumps if b["id"] == dev and b["t"] >= last_ble_t.get(dev, -1.0)]
+                    if later:
+                        want["state_num"] = later[-1]["value"]  # advanced by the session after the last advertisement
                     got = {"id": d.id, "config_num": d.config_num, "state_num": d.state_num, "status_flags": int(d.status_flags), "category": int(d.category)}
                 else:
                     want = {"id": dev, "config_num": adv["c"], "state_num": adv["s"], "status_flags": adv["sf"], "category": adv["ci"], "addresses": ref_addresses(adv["addrs"]),
